@@ -38,6 +38,10 @@ def conformance(ctx, n, hists, label, forest):
             prefixes.add(tuple(map(tuple, h[:j])))
     rest = [h for h in hists if len(h) < maxlen and tuple(map(tuple, h)) not in prefixes]
     todo = full + rest
+    if len(todo) > 250000:        # the model check is exhaustive; the replay of more than 250 000 histories is a seeded sample
+        import random as _r
+        todo = _r.Random(len(todo)).sample(todo, 250000)
+        ctx.extra.setdefault("sampled", {})[label] = 250000
     chunks = [todo[i::8] for i in range(8) if todo[i::8]]
     # node names are inputs: numeric one-character names, and two mixed schemes (one-character names that are
     # characters of longer names)
@@ -110,9 +114,9 @@ def run(ctx):
                 "distinct/non-trivial when its projected (neighbour-order, route table) state differs from all "
                 "others; registry behaviours are distinct by their action sequence")
     # ---- 1. model vs contract, forests ----------------------------------------------------------
-    forest_cfgs = [(4, 3), (5, 4)] if not thorough else [(4, 5), (5, 5), (6, 5)]
+    forest_cfgs = [(4, 3), (5, 4)] if not thorough else [(4, 5), (5, 5), (6, 4)]      # (6, 5): 16 M states, 37 min of TLC alone
     for n, ml in forest_cfgs:
-        r = ctx.tlc("Routing", label=f"forests N={n} MaxLinks={ml}", workers=16, dump=True, dump_only=["hist"],
+        r = ctx.tlc("Routing", label=f"forests N={n} MaxLinks={ml}", workers=16, dump=True, dump_only=["hist"], timeout=4000,
                     cfg_text=routing_cfg(n, ml, True, ["Symmetric", "Valid", "Unconnected", "TreeUnique",
                                                         "StepsExact", "IsForest"]))
         hists = [[list(l) for l in st["hist"]] for st in r.dump]
